@@ -53,6 +53,26 @@ def rand_ts(rng):
     return [f2b(s * math.cos(a)), f2b(-s * math.sin(a)), f2b(s * math.sin(a)), f2b(s * math.cos(a)), f2b(rng.uniform(0, 25)), f2b(rng.uniform(0, 25))]
 
 
+def micro_interval_cases(rng, n):
+    out = []
+    for i in range(n):
+        w, h = 33, 4
+        c = rng.randint(3, 29)
+        tc = (c + 0.5) / 32.0
+        gaps = rng.choice([(5e-5, 1e-5, 1.2e-5), (4e-5, 0.5e-5, 2e-5), (8e-5, 2e-5, 1e-5), (3.5e-5, 1.5e-5, 1.5e-5)])
+        pos = [0.0, tc - gaps[0], tc - gaps[1], tc + gaps[2], 1.0]
+        cols = []
+        for k in range(5):
+            a = rng.choice([0.25, 1.0, 0.1, 0.6]) if k != 2 else rng.choice([1.0, 0.25])
+            cols.append((rng.choice([0.0, 1.0]), rng.choice([0.0, 1.0, 0.5]), rng.choice([0.0, 1.0]), a))
+        st = [5]
+        for p_, cl in zip(pos, cols):
+            st += [f2b(p_)] + [f2b(v) for v in cl]
+        out.append(("grad_px", [0, f2b(0.0), f2b(1.0), f2b(32.0), f2b(1.0), f2b(1.0), rng.randrange(3), int(rng.random() < 0.5),
+                                rng.randrange(2), rng.randrange(3), w, h] + list(IDENT) + st))
+    return out
+
+
 def gen_cases(rng, tier):
     cases = []
     q = tier == "quick"
@@ -91,6 +111,9 @@ def gen_cases(rng, tier):
                     x1, y1 = x0 + d, y0
         cases.append(("grad_px", [kind, f2b(round(x0, 4)), f2b(round(y0, 4)), f2b(round(x1, 4)) if abs(x1 - x0) > 1e-3 or kind != 0 else f2b(x1), f2b(round(y1, 4)),
                                   f2b(rad), rng.randrange(3), int(rng.random() < 0.5), rng.randrange(2) + 2 * rng.choice([0, 0, 0, 1, 2, 3]), rng.randrange(3) + 3 * rng.choice([0, 0, 0, 1, 2, 3]), w, h] + rand_ts(rng) + rand_stops(rng)))
+    # stops a few 1e-5 apart around the t of one pixel column (intervals just above and just below 1/32768), translucent and
+    # contrasting colours: the colour of that column is still an interpolation of its own interval, never an extrapolation
+    cases += micro_interval_cases(rng, 40 if q else 500)
     # linear gradients a few 1e-5 .. 1e-3 units long: valid (longer than DEGENERATE_THRESHOLD = 1/32768), either drawn as they
     # are (a step at the start point for Pad) or magnified by the shader transform so that they span 8..24 pixels
     for i in range(60 if q else 800):
